@@ -6,7 +6,7 @@ import (
 
 func init() {
 	register(&Rule{ID: "ORD-28", Title: "tail index hand-over: the writer stores the offsets before it publishes the commit index, a reader loads the commit index before the offsets",
-		Props: []string{"C06"}, Floor: 2, Run: runORD28})
+		Props: []string{"C06", "C10"}, Floor: 2, Run: runORD28})
 }
 
 // The in-memory index of the tail is handed from the writer to concurrent readers through two atomics:
